@@ -242,7 +242,7 @@ def rule_eqonly(ctx):
             if x.op == "sub" and x.a[0] is u:
                 k = x.a[1]
                 if tm.is_const(k, 0):
-                    bad += _uses(t, x, set()) if False else [p for p in _parents(t, x) if not (p.op == "attr" and p.a[1] == "shape")]
+                    bad += _uses(t, x, set()) if False else [p for p in _parents(t, x) if not (p.op == "attr" and p.a[1] == "shape") and not (p.op == "call" and call_name(p) == "builtins.len")]
     yield ob(R, f, "segment._contingency_matrix:classes", not bad, "the sorted class values are only counted (shape[0]); class membership enters through the inverse indices as table coordinates")
     # hierarchy._meet
     f = ctx.program.func("hierarchy._meet", R)
